@@ -190,6 +190,25 @@ def run(tier, seed):
         detail = {"ref_intervals": ri.tolist(), "ref_labels": rl, "est_intervals": ei.tolist(), "est_labels": el, "frame_size": fs,
                   "aligned_est": out["estA"], "aligned_ref": out["refA"]}
         n_eval += 1
+        # stage by stage: the intermediate states of the composition against the public stage functions
+        try:
+            ra_i, ra_l = me.util.adjust_intervals(ri, labels=list(rl), t_min=0.0)
+            ea_i, ea_l = me.util.adjust_intervals(ei, labels=list(el), t_min=0.0, t_max=ra_i.max())
+            stage = None
+            for nm, (gi, gl), want_st in (("AdjustRef", (ra_i, ra_l), out["refA"]), ("AdjustEst", (ea_i, ea_l), out["estA"])):
+                if [[int(round(a / U)), int(round(b / U))] for a, b in gi.tolist()] != [list(x) for x in want_st["ivs"]] or list(gl) != list(want_st["labs"]):
+                    stage = (nm, {"got": [gi.tolist(), list(gl)], "expected": want_st})
+            if stage is None:
+                for nm, (gi, gl), want_y in (("SampleRef", (ra_i, ra_l), out["yr"]), ("SampleEst", (ea_i, ea_l), out["ye"])):
+                    fl = me.util.intervals_to_samples(gi, gl, sample_size=fs)[-1]
+                    if [str(x).lower() for x in fl] != [str(x).lower() for x in want_y]:
+                        stage = (nm, {"got": list(fl), "expected": list(want_y)})
+            if stage is not None:
+                rep.violation("segment.evaluate", "stage/" + stage[0] + "-state-differs", dict(detail, **stage[1]))
+                continue
+        except Exception as ex:  # noqa
+            rep.violation("segment.evaluate", "stage/raised-" + type(ex).__name__, dict(detail, message=str(ex)[:200]))
+            continue
         try:
             d = s.evaluate(ri, rl, ei, el, frame_size=fs)
             got = [float(x) for x in d.values()]
